@@ -93,6 +93,12 @@ def spanName : List Char → List Char × List Char
   | [] => ([], [])
   | c :: cs => if isNameCont c then let (n, r) := spanName cs; (c :: n, r) else ([], c :: cs)
 
+/-- `Name :: /[_A-Za-z][_0-9A-Za-z]*/`. -/
+def validName (n : List Char) : Bool :=
+  match n with
+  | [] => false
+  | c :: cs => isNameStart c && cs.all isNameCont
+
 /-- A maximal run of digits. -/
 def spanDigits : List Char → List Char × List Char
   | [] => ([], [])
@@ -176,5 +182,68 @@ def parseLiteral (s : String) : Option Lit :=
   match parseLit (s.length + 2) s.toList with
   | some (x, rest) => if skipIgnored rest = [] then some x else none
   | none => none
+
+end ApiFu.C10
+
+namespace ApiFu.C10
+
+/-! ### The literal a value denotes; the value classes `default_roundtrip` covers -/
+
+mutual
+  /-- The literal that denotes a value (enum values by name, input objects field by field). -/
+  def litOf : Value → Lit
+    | .null => .null
+    | .int i => .int i
+    | .float _ => .null          -- floats are outside the covered classes
+    | .str s => .str s.toList
+    | .bool b => .bool b
+    | .enum n => .enum n.toList
+    | .list vs => .list (litOfList vs)
+    | .obj fs => .obj (litOfFields fs)
+  def litOfList : List Value → List Lit
+    | [] => []
+    | v :: vs => litOf v :: litOfList vs
+  def litOfFields : List (String × Value) → List (List Char × Lit)
+    | [] => []
+    | (k, v) :: fs => (k.toList, litOf v) :: litOfFields fs
+end
+
+mutual
+  /-- The value classes covered: everything except floats (whose text is a parameter of the model),
+      strings within the Basic Multilingual Plane (Lean's `Char` has no surrogates). -/
+  def covered : Value → Bool
+    | .float _ => false
+    | .str s => s.toList.all (fun c => c.toNat ≤ 0xFFFF)
+    | .list vs => coveredList vs
+    | .obj fs => coveredFields fs
+    | _ => true
+  def coveredList : List Value → Bool
+    | [] => true
+    | v :: vs => covered v && coveredList vs
+  def coveredFields : List (String × Value) → Bool
+    | [] => true
+    | (_, v) :: fs => covered v && coveredFields fs
+end
+
+mutual
+  /-- Fuel `parseLit` needs for the printed form of a value. -/
+  def need : Value → Nat
+    | .list vs => needList vs + 1
+    | .obj fs => needFields fs + 1
+    | _ => 1
+  def needList : List Value → Nat
+    | [] => 1
+    | v :: vs => max (need v) (needList vs) + 1
+  def needFields : List (String × Value) → Nat
+    | [] => 1
+    | (_, v) :: fs => max (need v) (needFields fs) + 1
+end
+
+/-- Enum value names and input field names are GraphQL names, and no enum value is called `true`,
+    `false` or `null` (enum_type.go / input_object_type.go `shallowValidate`). -/
+def namesOk {ι : Type} (d : SchemaDef ι) : Bool :=
+  d.types.all (fun t =>
+    t.values.all (fun v => validName v.name.toList && v.name != "true" && v.name != "false" && v.name != "null")
+    && t.inputs.all (fun a => validName a.name.toList))
 
 end ApiFu.C10
